@@ -192,3 +192,15 @@ def inherit_h7(ctx, rep, prop, rule="H7"):
     bad = [v for v in r12.violations if v.rule == "H7"]
     rep.check(not bad, rule, "%s|%s|validate-passes-through" % (prop, rule), bad[0].where if bad else None,
               bad[0].message if bad else "Parser::validate = validation::validate(collect_item_keys(), all results)")
+
+
+def inherit(ctx, rep, prop, rules, as_rule="H"):
+    """C12's parser-state rules re-evaluated under another property (each violation re-keyed to that property)"""
+    import core as _core
+    r12 = _core.Report("C12")
+    run(ctx, r12)
+    bad = [v for v in r12.violations if v.rule in rules]
+    for v in bad:
+        rep.fail(as_rule, v.key.replace("C12|", prop + "|", 1), v.where, v.message, witness=v.witness)
+    if not bad:
+        rep.ok(as_rule, "C12 %s hold" % ", ".join(rules), {"C12 obligations": r12.obligations})
